@@ -40,6 +40,18 @@ def scenario(draw, tier="quick"):
     atb = [[mid - 1 - i, lvl()] for i in range(4) if draw(st.integers(0, 3))]
     atl = [[mid + 1 + i, lvl()] for i in range(4) if draw(st.integers(0, 3))]
     steps = [{"dt": 1000, "k": "book", "rc": [{"r": 0, "atb": atb, "atl": atl}]}]
+    # in-play-only listener (listener_kwargs inplay=True): the pre-play phase (with traded volume at the prices the
+    # orders will use) is filtered out, the suspension at the off and everything in play is delivered
+    inplay_only = draw(st.integers(0, 3)) == 0
+    shift = 0
+    if inplay_only:
+        pre = [{"dt": 1000, "k": "book", "rc": [{"r": 0, "atb": atb, "atl": atl}]}]
+        for _ in range(draw(st.integers(1, 4))):
+            pre.append({"dt": 500, "k": "book", "rc": [{"r": 0, "trd": [[max(0, min(nt - 1, mid + draw(st.integers(-4, 4)))),
+                                                                       (gen.size_c(draw, 2, 8000) // 2 * 2) / 100]]}]})
+        pre += [{"dt": 1000, "k": "suspend"}, {"dt": 1000, "k": "inplay", "status": "OPEN", "bet_delay": 0}]
+        steps = pre + steps
+        shift = 1  # delivered updates: suspension (0), turn in-play (1), first in-play book (2) ...
     strategies = []
     for si in range(n_strat):
         ops = []
@@ -58,7 +70,7 @@ def scenario(draw, tier="quick"):
                         "size": size, "pers": "PERSIST"})
         at2 = draw(st.integers(1, 3))
         k = draw(st.integers(0, len(ops)))
-        script = [{"m": 0, "at": 1, "ops": ops[:k]}, {"m": 0, "at": at2, "ops": ops[k:]}]
+        script = [{"m": 0, "at": 1 + shift, "ops": ops[:k]}, {"m": 0, "at": at2 + shift, "ops": ops[k:]}]
         strategies.append(gen.strategy_spec("S%d" % si, script=[e for e in script if e["ops"]]))
     n_upd = draw(st.integers(1, 15 if tier == "quick" else 40))
     for _ in range(n_upd):
@@ -80,6 +92,7 @@ def scenario(draw, tier="quick"):
         steps.append({"dt": draw(st.sampled_from([50, 200, 1000])), "k": "book", "rc": [rc]})
     spec["steps"] = steps
     return {"markets": [spec], "strategies": strategies, "clients": [{"min_bet_validation": False}],
+            "listener_kwargs": {"inplay": True} if inplay_only else {},
             "config": {"simulated_strategy_isolation": draw(st.integers(0, 2)) > 0, "simulation_available_prices": False}}
 
 
@@ -106,6 +119,8 @@ def check(sc):
             hist.setdefault(o["oid"], {})[u] = o
             info[o["oid"]] = o
     classes = {"isolation-on" if iso else "isolation-off", "strategies:%d" % len(sc["strategies"])}
+    if sc.get("listener_kwargs"):
+        classes.add("inplay-only-listener")
     orders = []
     for oid, h in hist.items():
         us = sorted(h)
